@@ -7,6 +7,7 @@ package ref
 import (
 	"encoding/binary"
 	"math/big"
+	"sync"
 
 	"github.com/consensys/gnark/frontend"
 	iden3 "github.com/iden3/go-iden3-crypto/poseidon"
@@ -22,9 +23,11 @@ func Pow2(k int) *big.Int { return new(big.Int).Lsh(big.NewInt(1), uint(k)) }
 
 // Field is a prime field with a Poseidon instance.
 type Field struct {
-	P     *big.Int
-	IsBN  bool
+	P              *big.Int
+	IsBN           bool
 	c2, m2, c3, m3 [][]*big.Int
+	once           sync.Once
+	tab2           []*big.Int // H2 table for tiny fields
 }
 
 func toBig(v frontend.Variable, p *big.Int) *big.Int {
@@ -116,6 +119,18 @@ func (f *Field) H2(a, b *big.Int) *big.Int {
 			panic(err)
 		}
 		return h
+	}
+	if f.P.BitLen() <= 9 {
+		p := int(f.P.Int64())
+		f.once.Do(func() {
+			f.tab2 = make([]*big.Int, p*p)
+			for i := 0; i < p; i++ {
+				for j := 0; j < p; j++ {
+					f.tab2[i*p+j] = f.textbook([]*big.Int{big.NewInt(int64(i)), big.NewInt(int64(j))})
+				}
+			}
+		})
+		return f.tab2[int(f.Mod(a).Int64())*p+int(f.Mod(b).Int64())]
 	}
 	return f.textbook([]*big.Int{a, b})
 }
@@ -260,6 +275,9 @@ func (f *Field) Insertion(depth int, pre, start *big.Int, comms []*big.Int, path
 		}
 		run = f.Path(comms[i], paths[i], idx.Uint64())
 	}
+	if post == nil {
+		return false, run
+	}
 	return run.Cmp(f.Mod(post)) == 0, run
 }
 
@@ -280,6 +298,9 @@ func (f *Field) Deletion(depth int, pre *big.Int, idx []*big.Int, items []*big.I
 			return false, nil
 		}
 		run = f.Path(new(big.Int), paths[i], ix.Uint64())
+	}
+	if post == nil {
+		return false, run
 	}
 	return run.Cmp(f.Mod(post)) == 0, run
 }
